@@ -460,10 +460,143 @@ def short_write_probe(chk: core.Check) -> None:
                 return
 
 
+BIG_DELETE_CHILD = r'''
+import os, sys
+sys.path.insert(0, %(root)r)
+from sqlalchemy import event
+import optuna
+from optuna.storages import RDBStorage
+optuna.logging.set_verbosity(optuna.logging.ERROR)
+url, k = sys.argv[1], int(sys.argv[2])
+st = RDBStorage(url, engine_kwargs={"connect_args": {"timeout": 30}})
+sid = st.get_study_id_from_name("big")
+count = [0]
+def tick(*a, **kw):
+    count[0] += 1
+    if count[0] == k:
+        os._exit(9)
+event.listen(st.engine, "commit", tick)
+st.delete_study(sid)
+print("DONE %%d" %% count[0], flush=True)
+'''
+
+
+def big_delete_kill(chk: core.Check, n_trials: int = 1100) -> None:
+    """delete_study of a study with MANY trials (more than any chunk size or bound-variable limit a rewrite might introduce),
+    the worker killed just before its k-th COMMIT, k = 1, 2, ...: a fresh opener must find the study either whole (all its
+    trials) or gone - the call is one transaction whatever the size.  (Run in the thorough tier and in the failing-input
+    search; ~20 s.)"""
+    import shutil
+    import sqlite3
+
+    from optuna.storages import RDBStorage
+    from optuna.study import StudyDirection
+
+    base = os.path.join(chk.tmp, "bigdel_%d.db" % os.getpid())
+    st = RDBStorage("sqlite:///" + base)
+    sid = st.create_new_study([StudyDirection.MINIMIZE], "big")
+    keep = st.create_new_study([StudyDirection.MINIMIZE], "control")
+    for _ in range(3):
+        st.create_new_trial(keep)
+    t0 = st.create_new_trial(sid)
+    st.set_trial_user_attr(t0, "k", 1)
+    del st
+    con = sqlite3.connect(base)   # bulk-create the rest (the ORM would take a minute): same rows create_new_trial writes
+    cur = con.cursor()
+    cols = [r[1] for r in cur.execute("PRAGMA table_info(trials)")]
+    row = dict(zip(cols, cur.execute("SELECT * FROM trials WHERE study_id = ? LIMIT 1", (sid,)).fetchone()))
+    for i in range(1, n_trials):
+        r2 = dict(row, number=i)
+        r2.pop("trial_id")
+        cur.execute("INSERT INTO trials (%s) VALUES (%s)" % (", ".join(r2), ", ".join("?" for _ in r2)), list(r2.values()))
+        cur.execute("INSERT INTO trial_user_attributes (trial_id, key, value_json) VALUES (?, 'k', '1')", (cur.lastrowid,))
+    con.commit()
+    con.close()
+    script = os.path.join(chk.tmp, "bigdel_child.py")
+    with open(script, "w") as f:
+        f.write(BIG_DELETE_CHILD % {"root": core.REPO})
+    for k in range(1, 9):
+        db = os.path.join(chk.tmp, "bigdel_%d_k%d.db" % (os.getpid(), k))
+        shutil.copy(base, db)
+        url = "sqlite:///" + db
+        p = subprocess.run([sys.executable, script, url, str(k)], capture_output=True, text=True, timeout=600, env=dict(os.environ))
+        done = any(l.startswith("DONE") for l in p.stdout.splitlines())
+        st2 = RDBStorage(url)
+        names = {fs.study_name: fs._study_id for fs in st2.get_all_studies()}
+        n_big = len(st2.get_all_trials(names["big"], deepcopy=False)) if "big" in names else None
+        n_ctl = len(st2.get_all_trials(names["control"], deepcopy=False)) if "control" in names else None
+        con = sqlite3.connect(db)
+        orphans = con.execute("SELECT COUNT(*) FROM trial_user_attributes WHERE trial_id NOT IN (SELECT trial_id FROM trials)").fetchone()[0]
+        con.close()
+        os.remove(db)
+        chk.case({"part": "big-delete-kill", "k": k, "n": n_trials}, nontrivial=not done)
+        chk.count("big-delete-kill")
+        if n_ctl != 3 or (n_big is not None and n_big != n_trials) or orphans:
+            chk.violation({"kind": "sqlite-half-applied-call", "call": "delete_study", "size": "big"}, {"part": "big-delete-kill", "k": k, "n": n_trials},
+                          "SIGKILL just before COMMIT #%d of delete_study on a study with %d trials: a fresh opener finds %s of its %d trials (study row %s), "
+                          "%d orphan attribute rows, control study has %s of 3 trials - neither wholly applied nor wholly absent" % (
+                              k, n_trials, n_big, n_trials, "present" if n_big is not None else "gone", orphans, n_ctl))
+            return
+        if done:
+            break
+
+
+def same_size_repair_probe(chk: core.Check) -> None:
+    """A writer dies leaving p bytes of a record without newline; a survivor reads (it ignores the torn tail) ; another worker's
+    append repairs the tail and writes a record of EXACTLY p bytes, so the file has the same size as when the survivor
+    looked - and different content.  The survivor's next read must return that acknowledged record (a reader that
+    short-cuts on an unchanged file size never sees it)."""
+    from optuna.storages.journal import JournalFileBackend
+
+    for p_len in (64, 117, 300):
+        path = os.path.join(chk.tmp, "samesize_%d_%d.log" % (os.getpid(), p_len))
+        a, w = JournalFileBackend(path), JournalFileBackend(path)
+        a.append_logs([{"op_code": 0, "worker_id": "A", "study_name": "s", "directions": [1]}])
+        assert len(a.read_logs(0)) == 1
+        with open(path, "ab") as f:       # the dead writer's partial record: p_len bytes, no newline
+            f.write((json.dumps({"op_code": 9, "pad": "x" * 400}))[:p_len].encode())
+        first = a.read_logs(1)
+        rec = {"op_code": 5, "worker_id": "W", "k": ""}
+        size_before = os.path.getsize(path)
+        # the record is padded so that (whatever separators the backend's serialiser uses) the repaired file has the size it
+        # had when the survivor looked: try paddings around the estimate and keep the one that hits it on a scratch copy
+        same = False
+        for pad in range(max(0, p_len - 60), p_len):
+            trial_rec = dict(rec, k="y" * pad)
+            probe_path = path + ".probe"
+            import shutil as _sh
+            _sh.copy(path, probe_path)
+            JournalFileBackend(probe_path).append_logs([trial_rec])
+            hit = os.path.getsize(probe_path) == size_before
+            os.remove(probe_path)
+            for extra in (probe_path + ".lock",):
+                if os.path.lexists(extra):
+                    os.remove(extra)
+            if hit:
+                rec, same = trial_rec, True
+                break
+        w.append_logs([rec])
+        same = same and os.path.getsize(path) == size_before
+        got = a.read_logs(1)
+        fresh = JournalFileBackend(path).read_logs(1)
+        chk.case({"part": "same-size-repair", "p": p_len, "same_size": same}, nontrivial=same)
+        chk.count("same-size-repair")
+        if first != [] or fresh != [rec] or got != [rec]:
+            chk.violation({"kind": "acked-append-invisible", "scenario": "same-size-repair"}, {"part": "same-size-repair", "p": p_len, "got": got, "fresh": fresh},
+                          "a worker's append repaired a %d-byte torn tail and wrote a record of exactly %d bytes (file size unchanged: %s): the surviving reader's "
+                          "next read_logs(1) returns %s, a fresh reader %s, the acknowledged record is %s" % (p_len, p_len, same, json.dumps(got)[:120], json.dumps(fresh)[:120], json.dumps(rec)[:80]))
+            return
+
+
 def search(chk: core.Check) -> None:
     chk.search_log.append("searching more crash scenarios on the real file backend")
     explore(chk, 60, False)
     c05_txn.search_sessions(chk)
+    if not chk.violations:
+        try:
+            big_delete_kill(chk)
+        except Exception as e:  # noqa: BLE001
+            chk.search_log.append("big_delete_kill raised %r" % (e,))
 
 
 def main(chk: core.Check) -> int:
@@ -495,6 +628,11 @@ def main(chk: core.Check) -> int:
         short_write_probe(chk)
     except Exception as e:  # noqa: BLE001
         chk.extra["short_write_error"] = str(e)[:300]
+    same_size_repair_probe(chk)   # a repair that leaves the file size unchanged must still be seen by a surviving reader
+    try:
+        big_delete_kill(chk)          # delete_study of a 1100-trial study, killed before each COMMIT
+    except Exception as e:  # noqa: BLE001
+        chk.extra["big_delete_error"] = str(e)[:300]
     try:
         c05_txn.check_sessions(chk)   # one transaction per RDBStorage call: shape, real BEGIN/COMMIT, kill at every SQL event
     except core.DriverBroken as e:
